@@ -104,7 +104,7 @@ def _fast(N, m, tier="quick"):
 
 for _N in (1, 2, 3, 4):
     _fast(_N, 2)
-_fast(5, 2, tier="thorough")
+_fast(5, 2)
 
 
 def naive_replay(t, N, m):
@@ -176,7 +176,7 @@ def _naive(N, m, tier="quick"):
 
 for _N in (1, 2, 3):
     _naive(_N, 2)
-_naive(4, 2, tier="thorough")
+_naive(4, 2)
 
 
 @task("C13", "get_pareto_set.raises[ndim != 2]")
